@@ -191,15 +191,13 @@ static int prepare_acf_packet(uint8_t* acf_pdu,
                       (uint64_t)now.tv_nsec + (uint64_t)(now.tv_sec * 1e9));
     Avtp_Can_SetField(pdu, AVTP_CAN_FIELD_MTV, 1U);
 
-    // Set required CAN Flags
+    // Set required CAN Flags (single bit fields: normalize the masked flags to 0/1)
     can_id = (can_variant == AVTP_CAN_FD) ? frame.fd.can_id : frame.cc.can_id;
-    Avtp_Can_SetField(pdu, AVTP_CAN_FIELD_RTR, can_id & CAN_RTR_FLAG);
-    Avtp_Can_SetField(pdu, AVTP_CAN_FIELD_EFF, can_id & CAN_EFF_FLAG);
+    Avtp_Can_SetField(pdu, AVTP_CAN_FIELD_RTR, (can_id & CAN_RTR_FLAG) ? 1 : 0);
 
     if (can_variant == AVTP_CAN_FD) {
-        Avtp_Can_SetField(pdu, AVTP_CAN_FIELD_BRS, frame.fd.flags & CANFD_BRS);
-        Avtp_Can_SetField(pdu, AVTP_CAN_FIELD_FDF, frame.fd.flags & CANFD_FDF);
-        Avtp_Can_SetField(pdu, AVTP_CAN_FIELD_ESI, frame.fd.flags & CANFD_ESI);
+        Avtp_Can_SetField(pdu, AVTP_CAN_FIELD_BRS, (frame.fd.flags & CANFD_BRS) ? 1 : 0);
+        Avtp_Can_SetField(pdu, AVTP_CAN_FIELD_ESI, (frame.fd.flags & CANFD_ESI) ? 1 : 0);
     }
 
     // Copy payload to ACF CAN PDU
@@ -209,6 +207,10 @@ static int prepare_acf_packet(uint8_t* acf_pdu,
     else
         Avtp_Can_CreateAcfMessage(pdu, frame.cc.can_id & CAN_EFF_MASK, frame.cc.data,
                                          frame.cc.len, can_variant);
+
+    // The builder derives EFF from the identifier value; an extended frame may
+    // carry an identifier below 0x800, so take the flag from the CAN frame
+    Avtp_Can_SetField(pdu, AVTP_CAN_FIELD_EFF, (can_id & CAN_EFF_FLAG) ? 1 : 0);
 
     return Avtp_Can_GetAcfMsgLength(pdu)*4;
 }
